@@ -142,12 +142,49 @@ def r_parens(ctx):
     ctx.floor(rid, 'parenthesis arm in compile', n, 1)
 
 
+SCOPE_RESOLVERS = {'<ast::Assignment as ast::AbstractSyntaxTree>::analyze', '<ast::CallName as ast::AbstractSyntaxTree>::analyze', '<ast::Function as ast::AbstractSyntaxTree>::analyze',
+                   '<ast::Match as ast::AbstractSyntaxTree>::analyze', '<ast::ModuleAssignment as ast::AbstractSyntaxTree>::analyze', 'ast::Scope::insert_alias'}
+
+
+def r_alias_resolution(ctx, rid='R17.7'):
+    """"Replacing an alias by its definition changes nothing": a type written in the program is resolved against the aliases in
+    scope wherever it is consumed.  resolve_builtin (which knows no user alias) may only see types that cannot contain one:
+    jet signatures and the type of a witness-file entry."""
+    ctx.rule(rid, 'alias resolution: every analysis function that consumes a written type resolves it with Scope::resolve; resolve_builtin is applied to jet signature types and witness-file types only')
+    fx = ctx.facts()
+    users = {f.path.split('::{closure')[0] for f, b, c, t in fx.callers_of('types::AliasedType::resolve_builtin')}
+    ok_users = {'<ast::Call as ast::AbstractSyntaxTree>::analyze', 'witness::<impl parse::ParseFromStr for types::ResolvedType>::parse_from_str'}
+    ctx.ob(rid, 'resolve_builtin:users', users <= ok_users and bool(users), 'resolve_builtin is used by %s only' % sorted(ok_users), None, 'also used by %s' % sorted(users - ok_users))
+    resolvers = {f.path.split('::{closure')[0] for f, b, c, t in fx.callers_of('ast::Scope::resolve')}
+    ctx.ob(rid, 'scope-resolve:users', resolvers >= SCOPE_RESOLVERS, 'the %d consumers of written types (let, cast, function signature, match arm, module entry, alias definition) call Scope::resolve' % len(SCOPE_RESOLVERS), None,
+           'no longer resolving through the scope: %s' % sorted(SCOPE_RESOLVERS - resolvers))
+    # inside Call::analyze: only jet signature types
+    fn = ctx.anchor(fx, '<ast::Call as ast::AbstractSyntaxTree>::analyze')
+    n, bad = 0, []
+    for k, p, r in explore(ctx, fn):
+        if p is None:
+            continue
+        for e in p.events:
+            if e[0] != 'call':
+                continue
+            direct = e[1].endswith('resolve_builtin')
+            asfn = any(x[0] == 'fn' and x[1].endswith('resolve_builtin') for a in e[2] for x in walk(a) if isinstance(a, tuple)) and e[1].split('::')[-1] == 'map'
+            if direct or asfn:
+                n += 1
+                src = sv(e[2][0])
+                if not (('source_type(' in src or 'target_type(' in src) and '@Jet.0' in src):
+                    bad.append(src[:120])
+    ctx.ob(rid, 'resolve_builtin:jet-types', n >= 2 and not bad, 'in Call::analyze resolve_builtin is applied to jet::source_type / jet::target_type of the called jet only (%d uses)' % n, fn.where(), str(bad[:3]))
+
+
 def check(ctx):
     from . import c04
     c04.r_grammar_words(ctx, 'R17.4')
-    c04.r_reviewed_grammar(ctx, 'R17.6', mention={'identifier', 'witness_name', 'function_name', 'alias_name', 'builtin_type', 'builtin_function', 'builtin_alias', 'jet', 'fn_keyword', 'let_keyword', 'match_keyword', 'type_keyword', 'mod_keyword', 'const_keyword', 'module_name', 'single_expression', 'ty', 'call_name', 'expression', 'pattern', 'match_pattern'})
+    c04.r_reviewed_grammar(ctx, 'R17.6', mention={'identifier', 'witness_name', 'function_name', 'alias_name', 'builtin_type', 'builtin_function', 'builtin_alias', 'jet', 'fn_keyword', 'let_keyword', 'match_keyword', 'type_keyword', 'mod_keyword', 'const_keyword', 'module_name', 'single_expression', 'ty', 'call_name', 'expression', 'pattern', 'match_pattern', 'WHITESPACE', 'COMMENT', 'program', 'item', 'statement', 'block_expression'})
     r_capture(ctx)
     r_names_raw(ctx)
     r_parens(ctx)
+    r_alias_resolution(ctx)
+    c04.group_rule(ctx, 'R17.8', r'^<str::\w+ as parse::PestParse>::parse$', 'name wrappers are built from the matched text', 8)
     from . import c10
     c10.r_lookup_ast(ctx)   # renaming-invariance of acceptance needs innermost-first lookup at type-check time
